@@ -37,24 +37,22 @@ OTHER = {'c': 's', 's': 'c'}
 HOSTILE_BASE = 2001
 
 
-class Watchdog(Exception):
-    pass
+_stuck = []
 
 
-def _alarm(signum, frame):
-    raise Watchdog()
-
-
-def run_guarded(program, seconds=60):
-    old = signal.signal(signal.SIGALRM, _alarm)
-    signal.alarm(seconds)
+def run_guarded(program, seconds=20):
+    """Programs take milliseconds; one that is still running after `seconds` of wall clock is stuck in the code under
+    test (the guard exception derives from BaseException, so a broad except in that code cannot swallow it)."""
+    from harness.common import CaseTimeout
+    if _stuck:
+        # one stuck case costs `seconds` of wall clock; the shard reports it and stops exploring
+        return None, viol('processing_does_not_terminate', 'C12:does_not_terminate', note='(not re-run after the first)')
     try:
-        return run_program(program), None
-    except Watchdog:
-        return None, viol('processing_does_not_terminate', 'C12:does_not_terminate', note='watchdog fired after %ds' % seconds)
-    finally:
-        signal.alarm(0)
-        signal.signal(signal.SIGALRM, old)
+        return run_program(program, timeout=seconds), None
+    except CaseTimeout as e:
+        if 'decoder produced' not in str(e):
+            _stuck.append(True)
+        return None, viol('processing_does_not_terminate', 'C12:does_not_terminate', note=str(e) or 'guard fired after %ds' % seconds)
 
 
 # ------------------------------------------------------------------------------------------- (ii) hostile frames
@@ -267,7 +265,8 @@ def judge_bytes(program):
 # ------------------------------------------------------------------------------------------- (iii) application faults
 
 FAULTS = [
-    ('rr', 'handler_raises'), ('rr', 'future_fails'),
+    ('rr', 'handler_raises'), ('rr', 'future_fails'), ('rr', 'future_fails_late'), ('rr', 'future_cancelled'),
+    ('rr', 'future_cancelled_late'),
     ('st', 'handler_raises'), ('st', 'pub_raises_subscribe'), ('st', 'pub_raises_request'),
     ('st', 'gen_raises_0'), ('st', 'gen_raises_1'), ('st', 'gen_raises_end'), ('st', 'agen_raises_1'), ('st', 'rx4_raises_1'),
     ('st', 'rx3bp_raises_1'), ('st', 'subscriber_raises_1'), ('st', 'subscriber_raises_2'),
@@ -302,6 +301,12 @@ def fault_program(k, fault, side, msg, frag):
             spec['handler_raises'] = True
     elif f == 'future_fails':
         spec['resp']['mode'] = 'fail'
+    elif f == 'future_fails_late':
+        spec['resp'].update(mode='fail_late', delay=3)
+    elif f == 'future_cancelled':
+        spec['resp']['mode'] = 'cancelled'
+    elif f == 'future_cancelled_late':
+        spec['resp'].update(mode='cancel_late', delay=3)
     elif f.startswith('pub_raises_'):
         spec['src']['raise_in'] = f.split('_')[-1]
     elif f.startswith('requester_pub_raises_'):
@@ -349,7 +354,7 @@ def judge_fault(program):
                 out.append(viol('probe_not_answered', 'C12:probe_not_answered:appfault', fault=fault, model=k, got=res))
     # the failing interaction: a two-way requester must not be left hanging when the responder side failed
     evs = [e for e in tr.world.log if e.get('uid') == 1]
-    if fault in ('handler_raises', 'future_fails') and k == 'rr':
+    if fault in ('handler_raises', 'future_fails', 'future_fails_late') and k == 'rr':
         if not any(e['ev'] == 'rr_error' for e in evs):
             out.append(viol('failure_not_reported_to_requester', 'C12:failure_not_reported:rr', fault=fault))
     if k in ('st', 'ch') and (fault in ('handler_raises',) or fault.startswith(('pub_raises', 'gen_raises', 'agen_raises',
